@@ -76,6 +76,14 @@ def run_case(c):
                 r = call("find_frets", {"p": p, "maxfret": mf}, lambda: [opt(x) for x in t.find_frets(Note().from_int(p), mf)])
                 r["tuning"] = tp
                 R.append(r)
+            # the same pitch given as text, spelled across the octave line (B# / B## belong to the octave below, Cb / Cbb above)
+            o, pc = divmod(p, 12)
+            spell = {0: ("B#", o - 1), 1: ("B##", o - 1), 11: ("Cb", o + 1), 10: ("Cbb", o + 1)}.get(pc)
+            if spell is not None and 0 <= spell[1] <= 9:
+                text = "%s-%d" % spell
+                r = call("find_frets", {"p": p, "maxfret": 24, "as": text}, lambda: [opt(x) for x in t.find_frets(text, 24)])
+                r["tuning"] = tp
+                R.append(r)
         for s in range(-1, tp["strings"] + 1):
             for f in (-1, 0, 1, 11, 12, 13, 24, 25):
                 for mf in (0, 12, 24, 12):      # the narrower limit again after the wider one has been answered
